@@ -16,7 +16,7 @@ was restored (`git -C /repo checkout -- .`).  None of these changes is committed
 | Seed | Property | Change | Caught by (quick tier) | First run |
 |---|---|---|---|---|
 """
-rows, rounds = [], {}
+rows, rounds, notcaught = [], {}, []
 def key(d):
     m = re.match(r"C(\d+)-(\d+)", d)
     return (int(m.group(2)), int(m.group(1)))
@@ -26,6 +26,8 @@ for d in sorted((os.path.basename(p) for p in glob.glob(ROOT + "/seeded/C*-*")),
     r = key(d)[0]
     tot, missed = rounds.get(r, (0, 0))
     rounds[r] = (tot + 1, missed + (0 if fr.startswith("caught on the first run") else 1))
+    if not m["caught_by"]:
+        notcaught.append(d)
     s = m["summary"][:170].replace("|", "\\|").replace("\n", " ")
     rows.append(f"| {d} | {m['breaks_property']} | {s} | {', '.join(m['caught_by'])} | {fr} |")
 foot = "\n\"First run\" records honestly what the machinery did before it was strengthened.\n"
@@ -34,8 +36,10 @@ for r, (tot, missed) in sorted(rounds.items()):
 foot += """From round 2 on the agents were told what the earlier rounds had done and asked for a different
 site and mechanism.  Every miss led to a generator or driver improvement described in the seed's
 meta.json (`strengthening`); after them every change is caught by the quick tier of the property
-it breaks.  All improvements were re-run on the unchanged tree at several seeds to make sure
-they raise no alarm there.
+it breaks, with the exceptions listed below.  All improvements were re-run on the unchanged tree at
+several seeds to make sure they raise no alarm there.
 """
+if notcaught:
+    foot += "\nNot caught, deliberately (the meta.json says why): " + ", ".join(notcaught) + ".\n"
 open(ROOT + "/seeded/README.md", "w").write(HEAD + "\n".join(rows) + "\n" + foot)
 print(rounds)
